@@ -56,7 +56,7 @@ def g_bool(b) -> str:
 def g_q(x) -> str:
     """Exact rational literal for an int / Fraction / float (floats are dyadic rationals)."""
     f = Fraction(x)
-    return f"(({f.numerator})%Z # {f.denominator}%positive)"
+    return f"(Qmake ({f.numerator})%Z {f.denominator}%positive)"
 
 
 def g_str(s: str) -> str:
